@@ -33,7 +33,7 @@ ASSUMPTIONS = [
 ]
 BUDGET = {
     "quick": {"shards": 16, "examples": 250, "wall": 100, "value_examples": 6},
-    "thorough": {"shards": 16, "examples": 12000, "wall": 3300, "value_examples": 150},
+    "thorough": {"shards": 16, "examples": 12000, "wall": 1200, "value_examples": 150},
 }
 
 NEG_TESTS = {
